@@ -301,6 +301,7 @@ func enumPathsX(fn *ssa.Function, start ssa.Instruction, isEvent func(ssa.Instru
 					}
 					ns := st.clone()
 					ns.Facts[core] = valCore
+					addAccessorFacts(ns, core, valCore, 0)
 					enter(succ, b, ns, visits, walk)
 				}
 				return
@@ -805,4 +806,51 @@ func provInter(v ssa.Value, depth int) []ssa.Value {
 		}
 	}
 	return out
+}
+
+// addAccessorFacts: a branch on a call to a pure one-block predicate accessor of the module
+// (`func (x *T) hasFoo() bool { return x.foo != nil }`) also decides the expression the accessor returns.
+// The expression's SSA values live in the accessor; rules that recognise facts by field identity
+// (isLoadOfField, nilTest on a field load) see them like an inlined condition.
+func addAccessorFacts(st *pathState, cond ssa.Value, val bool, depth int) {
+	call, ok := cond.(*ssa.Call)
+	if !ok || depth > 2 {
+		return
+	}
+	fn := call.Call.StaticCallee()
+	if fn == nil || !inModule(fn) || len(fn.Blocks) != 1 {
+		return
+	}
+	var ret *ssa.Return
+	for _, in := range fn.Blocks[0].Instrs {
+		switch x := in.(type) {
+		case *ssa.FieldAddr, *ssa.Field, *ssa.BinOp, *ssa.IndexAddr, *ssa.DebugRef:
+		case *ssa.UnOp:
+		case *ssa.Return:
+			ret = x
+		case *ssa.Call:
+			// another pure accessor or len()
+			if _, isB := x.Call.Value.(*ssa.Builtin); isB {
+				continue
+			}
+			if sc := x.Call.StaticCallee(); sc != nil && inModule(sc) && len(sc.Blocks) == 1 {
+				continue
+			}
+			return
+		default:
+			return
+		}
+	}
+	if ret == nil || len(ret.Results) != 1 {
+		return
+	}
+	rv, neg := stripNot(ret.Results[0])
+	if bt, ok := rv.Type().Underlying().(*types.Basic); !ok || bt.Kind() != types.Bool {
+		return
+	}
+	v := val != neg
+	if _, has := st.Facts[rv]; !has {
+		st.Facts[rv] = v
+		addAccessorFacts(st, rv, v, depth+1)
+	}
 }
